@@ -42,7 +42,8 @@ def capture_stdout():
         return
     sys.stdout.flush()
     saved = os.dup(1)
-    os.dup2(2, 1)
+    devnull = os.open(os.devnull, os.O_WRONLY)
+    os.dup2(devnull, 1)          # C-level / library writes to stdout are discarded
     _real_stdout = os.fdopen(saved, "w", buffering=1)
     sys.stdout = sys.stderr
 
